@@ -52,12 +52,14 @@ pub fn run_case(id: &str, r: &mut Rng, out: &mut String) {
     let home = root.join("home");
     let _ = std::fs::create_dir_all(&home);
     let k = r.below(100);
-    if k < 45 {
+    if k < 40 {
         files_case(id, r, &root, &home, out);
-    } else if k < 80 {
+    } else if k < 65 {
         summary_case(id, r, &root, &home, out);
-    } else {
+    } else if k < 85 {
         symbase_case(id, r, &root, &home, out);
+    } else {
+        spelling_case(id, r, &root, &home, out);
     }
     let _ = std::fs::remove_dir_all(&root);
 }
@@ -285,6 +287,40 @@ fn symbase_case(id: &str, r: &mut Rng, root: &Path, home: &Path, out: &mut Strin
         }
     }
     out.push_str(&format!("repro {}\nend\n", oneline(&format!("acb {}\n--- in.csv\n{}", args.iter().map(|a| format!("'{}'", a)).collect::<Vec<_>>().join(" "), csv))));
+}
+
+/// kind=spelling (C01, C17): an affiliate is identified by its name up to letter case and
+/// surrounding blanks ("Default", "default", "DEFAULT" are the default affiliate).  The same rows
+/// with the names typed as they are and typed in lower / upper / mixed case must print the same
+/// report (figures, cost tables, ignored-transaction notes), up to the spelling itself.
+fn spelling_case(id: &str, r: &mut Rng, root: &Path, home: &Path, out: &mut String) {
+    let c = app::gen_case(r);
+    if c.rows.is_empty() {
+        return;
+    }
+    // the default affiliate named explicitly in every row that belongs to it
+    let mode = 1 + r.below(3) as u8;
+    let canon = app::txs_to_csv_spelled(&c.rows, 0);
+    let other = app::txs_to_csv_spelled(&c.rows, mode);
+    let _ = std::fs::write(root.join("canon.csv"), &canon);
+    let _ = std::fs::write(root.join("other.csv"), &other);
+    let mut extra: Vec<String> = Vec::new();
+    if r.chance(70) {
+        extra.push("--total-costs".into());
+    }
+    let mut a1 = vec!["canon.csv".to_string()];
+    a1.extend(extra.clone());
+    let mut a2 = vec!["other.csv".to_string()];
+    a2.extend(extra.clone());
+    let (rc1, o1) = run_acb(home, root, &a1);
+    let (rc2, o2) = run_acb(home, root, &a2);
+    out.push_str(&format!("case {} cli kind=spelling mode={} rows={}\n", id, mode, c.rows.len()));
+    if rc1 == rc2 && o1.to_lowercase() == o2.to_lowercase() {
+        out.push_str(&format!("impl same exit={} bytes={}\n", rc1, o1.len()));
+    } else {
+        out.push_str(&format!("impl differ exit={}/{} {}\n", rc1, rc2, oneline(&first_diff_line(&o1.to_lowercase(), &o2.to_lowercase()))));
+    }
+    out.push_str(&format!("repro {}\nend\n", oneline(&format!("acb canon.csv {}   versus   acb other.csv {}\n--- canon.csv\n{}--- other.csv\n{}", extra.join(" "), extra.join(" "), canon, other))));
 }
 
 pub fn cleanup() {
